@@ -27,12 +27,13 @@ class Check(CheckBase):
     rule = ("complete domains: all 256 bytes through AKAI->ASCII and ASCII->AKAI (bytes and 1-char strings incl. lower "
             "case), bijection on the 41 valid characters against an independent table; AkaiPaddedString(12) "
             "parse(build(s)) for all strings of length <=2 over the 41 characters (and length 12 paddings); all 256 bytes "
-            "through note<->AKAI byte and note<->MIDI byte; all 7x2x10 note spellings through text; all 256 tuning bytes. "
+            "through note<->AKAI byte and note<->MIDI byte; all 7x2x10 note spellings through text; all 256 tuning bytes; a 7-character name decoded / encoded right after a call "
+            "that ended with each of the 256 bytes (accepted or rejected): the codecs keep nothing between calls. "
             "non-trivial = every case other than the identity on a single digit")
     assumptions = ["trailing blanks of a padded name are padding and excluded from the identity"]
 
     def shards(self):
-        return [{"part": p} for p in ("akai2ascii", "ascii2akai", "strings", "notes", "text", "tune")]
+        return [{"part": p} for p in ("akai2ascii", "ascii2akai", "strings", "notes", "text", "tune", "sequences")]
 
     def run_shard(self, shard, rep: Report):
         part = shard["replay_case"]["part"] if "replay_case" in shard else shard["part"]
@@ -54,6 +55,26 @@ class Check(CheckBase):
                 ok = st == "exc"
                 rep.case(case, ok=ok, klass="rejected:" + (type(val).__name__ if st == "exc" else "NOT"), nontrivial=True,
                          sig="akai2ascii:invalid-accepted", detail=None if ok else {"expected": "rejection", "observed": repr(val)})
+
+    def _sequences(self, rep, only=None):
+        """the codecs keep nothing between calls: a multi-character name decodes / encodes the same after ANY rejected input
+        (valid characters followed by each invalid byte) and after any other accepted name"""
+        from smpl_extract.akai.akai_string import char_akai_to_ascii, char_ascii_to_akai
+        probe_a = bytes([0x15, 0x13, 0x0D, 0x15, 0x0A, 0x00, 0x01])          # "KICK 01"
+        probe_s = "KICK 01"
+        for b in range(256):
+            case = {"part": "sequences", "after": b}
+            if only and only != case:
+                continue
+            call(lambda: char_akai_to_ascii(bytes([0x1D, 0x18, 0x0B, 0x1C, 0x0F, b])))      # "SNARE" + byte b: rejected when b is invalid
+            st, val = call(lambda: char_akai_to_ascii(probe_a))
+            ok = st == "ok" and val == probe_s
+            if ok:
+                call(lambda: char_ascii_to_akai(b"TOM" + bytes([b])))
+                st, val = call(lambda: char_ascii_to_akai(probe_s))
+                ok = st == "ok" and bytes(val) == probe_a
+            rep.case(case, ok=ok, klass="sequence-ok" if ok else "sequence-differs", nontrivial=True, sig="sequences:name-after-another-call",
+                     detail=None if ok else {"after_byte": b, "expected": probe_s, "observed": repr(val)[:80]})
 
     def _ascii2akai(self, rep, only=None):
         from smpl_extract.akai.akai_string import char_ascii_to_akai, char_akai_to_ascii
